@@ -5,6 +5,12 @@ package main
 //   C15 world <ops...>         => <sni>=<disk>,...            fresh controller on a cluster state
 //   C15 hist  <ops with sync>  => <sni>=<disk>|<running>,...  long-lived controller, secret
 //                                                              add/update/delete in a later batch
+//   C15 trk   <ops with sync>  => <ns/secret>=<ing>+..:<host>+..,...  the REAL tracker of the same long-lived
+//                                                              controller queried with each Secret (read-only)
+//
+// A history is judged after EVERY reconciliation: for each `sync` of the history one `hist` and one `trk` line are
+// emitted whose ops are the prefix of the history that ends with that `sync` (the same long-lived pipeline, no
+// re-run), so the served certificate of every declared host is compared with the declared one after every sync.
 //
 // <disk> = identity of the certificate HAProxy's crt-list rules select among the files on disk
 // (`default` or `ns/name@version`); <running> = what the simulated running HAProxy holds in memory
@@ -16,6 +22,8 @@ import (
 	"os"
 	"sort"
 	"strings"
+
+	convtypes "github.com/jcmoraisjr/haproxy-ingress/pkg/converters/types"
 
 	"hapverif/gen"
 	"hapverif/world"
@@ -161,7 +169,57 @@ func c15world(c *ctx, toks []string) {
 	c.stat("worlds", 1)
 }
 
-// c15hist: long-lived pipeline; every `sync` reconciles; projection after the last one
+// secretsOf: every Secret a history names — objects and the resolved names of the tls blocks
+func secretsOf(ops []string) []string {
+	set := map[string]bool{}
+	for _, o := range ops {
+		switch {
+		case strings.HasPrefix(o, "sec+") || strings.HasPrefix(o, "sec~") || strings.HasPrefix(o, "sec-"):
+			set[strings.SplitN(o[4:], "!", 2)[0]] = true
+		case strings.HasPrefix(o, "ing+") || strings.HasPrefix(o, "ing~"):
+			s, err := world.ParseIngress(o[4:])
+			if err != nil {
+				continue
+			}
+			for _, t := range s.TLS {
+				switch {
+				case t.Secret == "":
+				case strings.Contains(t.Secret, "/"):
+					if strings.Count(t.Secret, "/") == 1 && !strings.HasPrefix(t.Secret, "/") {
+						set[t.Secret] = true
+					}
+				default:
+					set[s.Namespace+"/"+t.Secret] = true
+				}
+			}
+		}
+	}
+	return world.SortedKeys(set)
+}
+
+// trackProjection: the real tracker queried (read-only) with each Secret: ingresses and hosts of the closure
+func trackProjection(p *world.Pipeline, ops []string) string {
+	var out []string
+	names := func(l []string) string {
+		if len(l) == 0 {
+			return "-"
+		}
+		l = append([]string(nil), l...)
+		sort.Strings(l)
+		return strings.Join(l, "+")
+	}
+	for _, key := range secretsOf(ops) {
+		links := p.Tracker.QueryLinks(convtypes.TrackingLinks{convtypes.ResourceSecret: []string{key}}, false)
+		out = append(out, key+"="+names(links[convtypes.ResourceIngress])+":"+names(links[convtypes.ResourceHAHostname]))
+	}
+	if len(out) == 0 {
+		return "-"
+	}
+	return strings.Join(out, ",")
+}
+
+// c15hist: long-lived pipeline; every `sync` reconciles; projections after EVERY reconciliation (one `hist` and
+// one `trk` line per sync: the prefix of the history up to it)
 func c15hist(c *ctx, toks []string) {
 	args := "hist " + strings.Join(toks, " ")
 	defer func() {
@@ -170,6 +228,15 @@ func c15hist(c *ctx, toks []string) {
 		}
 	}()
 	opt, ops := syncOptions(toks)
+	var optToks []string
+	for _, t := range toks {
+		if strings.HasPrefix(t, "opt~") && t != "opt~subsets=1" {
+			optToks = append(optToks, t)
+		}
+	}
+	if len(ops) == 0 || ops[len(ops)-1] != "sync" {
+		ops = append(append([]string(nil), ops...), "sync")
+	}
 	w := world.NewWorld()
 	p, err := world.NewPipeline(w, opt)
 	if err != nil {
@@ -177,39 +244,34 @@ func c15hist(c *ctx, toks []string) {
 		return
 	}
 	defer p.Close()
-	reconcile := func() bool {
-		if _, err := p.Reconcile(); err != nil {
-			if strings.HasPrefix(err.Error(), "PANIC") {
-				c.emit("C15", args, "PANIC")
-			} else {
+	syncs := 0
+	for i, o := range ops {
+		if o != "sync" {
+			evs, err := w.Apply(world.Op{Text: o})
+			if err != nil {
 				c.emit("C15", args, "ERR:"+sanitize(err.Error()))
-			}
-			return false
-		}
-		return true
-	}
-	for _, o := range ops {
-		if o == "sync" {
-			if !reconcile() {
 				return
 			}
+			p.Deliver(evs)
 			continue
 		}
-		evs, err := w.Apply(world.Op{Text: o})
-		if err != nil {
-			c.emit("C15", args, "ERR:"+sanitize(err.Error()))
+		prefix := strings.Join(append(append([]string(nil), optToks...), ops[:i+1]...), " ")
+		if _, err := p.Reconcile(); err != nil {
+			out := "ERR:" + sanitize(err.Error())
+			if strings.HasPrefix(err.Error(), "PANIC") {
+				out = "PANIC"
+			}
+			c.emit("C15", "hist "+prefix, out)
 			return
 		}
-		p.Deliver(evs)
+		syncs++
+		out, _ := crtProjection(p, snisOf(ops[:i+1]), true)
+		c.emit("C15", "hist "+prefix, out)
+		c.emit("C15", "trk "+prefix, trackProjection(p, ops[:i+1]))
+		c.stat("history_syncs_judged", 1)
 	}
-	if len(ops) == 0 || ops[len(ops)-1] != "sync" {
-		if !reconcile() {
-			return
-		}
-	}
-	out, _ := crtProjection(p, snisOf(ops), true)
-	c.emit("C15", args, out)
 	c.stat("histories", 1)
+	c.stat(fmt.Sprintf("history_syncs_%d", syncs), 1)
 	dyn := 0
 	for _, cmd := range p.Sim.Cmds {
 		if strings.HasPrefix(cmd, "set ssl cert") {
@@ -260,6 +322,135 @@ func secretStep(r *gen.Rng, vers map[string]int) string {
 	return fmt.Sprintf("sec%s%s!tls!%d!a.local", act, key, vers[key])
 }
 
+// ---- directed secret-sharing histories (seed C15e): k ingresses with distinct hosts and distinct services share
+// one Secret; one reader leaves (other Secret / deleted / no tls block / missing Secret); then the shared Secret is
+// rotated in place. The remaining readers are linked to the leaver through the Secret ONLY, so their tracking links
+// survive the leaver's partial sync only if that sync reads them again.
+
+type sharedShape struct {
+	k       int  // readers of the shared Secret d/tls1 (2..3)
+	mode    int  // 0 same namespace, 1 cross-namespace with the permission key, 2 wildcard host + hosts below it, 3 cross-namespace without permission (control)
+	leaver  int  // the reader that leaves
+	leave   int  // 0 switches to its own Secret, 1 is deleted, 2 loses its tls block, 3 switches to a missing Secret
+	rot     int  // 0 new leaf, 1 same leaf and key with another intermediate chain
+	batch   int  // 0 each step its own reconciliation, 1 leave+rotation batched, 2 rotation+leave batched, 3 the ingresses arrive in a partial sync of their own
+	tail    bool // a second rotation of the other kind in its own reconciliation
+	leaver2 int  // -1 or a second reader that leaves (deleted) together with the first
+	churn   bool // an Endpoints-only reconciliation between the leave and the rotation
+}
+
+var sharedModes = []string{"same_ns", "xns_allowed", "wildcard", "xns_forbidden"}
+var sharedLeaves = []string{"switch_secret", "deleted", "tls_block_removed", "switch_to_missing"}
+var sharedBatches = []string{"stepwise", "leave_then_rotate_batched", "rotate_then_leave_batched", "ingresses_in_partial_sync"}
+
+func (sh sharedShape) ops() []string {
+	hosts := []string{"a.local", "b.local", "c.local"}
+	if sh.mode == 2 {
+		hosts = []string{"*.w.local", "x.w.local", "y.w.local"}
+	}
+	svcs := []string{"app", "api", "web"}
+	type reader struct {
+		ns, name, host, svc, secret string
+		ts                          int
+	}
+	var base, ings []string
+	var rs []reader
+	base = append(base, "sec+d/tls1!tls!1!a.local", "sec+d/tls2!tls!1!b.local")
+	if sh.mode == 1 || sh.mode == 3 {
+		base = append(base, "sec+e/tls2!tls!1!b.local")
+	}
+	for i := 0; i < sh.k; i++ {
+		r := reader{"d", fmt.Sprintf("i%d", i+1), hosts[i], svcs[i], "tls1", i + 1}
+		if (sh.mode == 1 || sh.mode == 3) && i > 0 {
+			r.ns, r.secret = "e", "d/tls1"
+		}
+		rs = append(rs, r)
+		base = append(base, fmt.Sprintf("svc+%s/%s!http:80:8080!-", r.ns, r.svc), fmt.Sprintf("ep~%s/%s!10.0.%d.1:r:%s-1", r.ns, r.svc, i+1, r.svc))
+	}
+	text := func(r reader, tls string) string {
+		return fmt.Sprintf("%s/%s@%d!haproxy,-!-!%s>/:Prefix:%s:80!%s!-", r.ns, r.name, r.ts, r.host, r.svc, tls)
+	}
+	for _, r := range rs {
+		ings = append(ings, "ing+"+text(r, r.host+">"+r.secret))
+	}
+	var leave []string
+	l := rs[sh.leaver]
+	switch sh.leave {
+	case 0:
+		leave = append(leave, "ing~"+text(l, l.host+">tls2"))
+	case 1:
+		leave = append(leave, "ing-"+l.ns+"/"+l.name)
+	case 2:
+		leave = append(leave, "ing~"+text(l, "-"))
+	default:
+		leave = append(leave, "ing~"+text(l, l.host+">missing"))
+	}
+	if sh.leaver2 >= 0 && sh.leaver2 != sh.leaver && sh.leaver2 < sh.k && sh.k > 2 {
+		l2 := rs[sh.leaver2]
+		leave = append(leave, "ing-"+l2.ns+"/"+l2.name)
+	}
+	v1, v2 := 2, 2+world.ChainStep
+	if sh.rot == 1 {
+		v1, v2 = 1+world.ChainStep, 2
+	}
+	rot := fmt.Sprintf("sec~d/tls1!tls!%d!a.local", v1)
+	var ops []string
+	if sh.mode == 1 {
+		ops = append(ops, "opt~xns=1")
+	}
+	ops = append(ops, base...)
+	if sh.batch == 3 {
+		ops = append(ops, "sync")
+	}
+	ops = append(ops, ings...)
+	ops = append(ops, "sync")
+	churn := func() {
+		if sh.churn {
+			ops = append(ops, fmt.Sprintf("ep~%s/%s!10.0.9.1:r:%s-9", rs[0].ns, rs[0].svc, rs[0].svc), "sync")
+		}
+	}
+	switch sh.batch {
+	case 1:
+		ops = append(ops, leave...)
+		ops = append(ops, rot, "sync")
+	case 2:
+		ops = append(ops, rot)
+		ops = append(ops, leave...)
+		ops = append(ops, "sync")
+	default:
+		ops = append(ops, leave...)
+		ops = append(ops, "sync")
+		churn()
+		ops = append(ops, rot, "sync")
+	}
+	if sh.tail {
+		ops = append(ops, fmt.Sprintf("sec~d/tls1!tls!%d!a.local", v2), "sync")
+	}
+	return ops
+}
+
+func c15shared(c *ctx, sh sharedShape) {
+	c15hist(c, sh.ops())
+	c.stat("shared_histories", 1)
+	c.stat(fmt.Sprintf("shared_readers_%d", sh.k), 1)
+	c.stat("shared_mode_"+sharedModes[sh.mode], 1)
+	c.stat("shared_leave_"+sharedLeaves[sh.leave], 1)
+	c.stat("shared_batch_"+sharedBatches[sh.batch], 1)
+	if sh.rot == 1 {
+		c.stat("shared_rotation_same_leaf_other_chain", 1)
+	} else {
+		c.stat("shared_rotation_new_leaf", 1)
+	}
+	if sh.leaver == 0 {
+		c.stat("shared_first_created_reader_leaves", 1)
+	} else {
+		c.stat("shared_later_reader_leaves", 1)
+	}
+	if sh.tail {
+		c.stat("shared_second_rotation", 1)
+	}
+}
+
 func runC15(c *ctx) {
 	for _, l := range c15corpus {
 		f := strings.Fields(l)
@@ -269,10 +460,41 @@ func runC15(c *ctx) {
 			c15world(c, f[1:])
 		}
 	}
+	// exhaustive small scope of the directed secret-sharing histories
+	for k := 2; k <= 3; k++ {
+		for mode := 0; mode < 4; mode++ {
+			for leaver := 0; leaver < k; leaver++ {
+				for leave := 0; leave < 4; leave++ {
+					for rot := 0; rot < 2; rot++ {
+						for bi, batch := range []int{0, 1, 3} {
+							// quick: three readers and the control mode with ONE (rotation kind, batching) each, rotating
+							if !c.thorough() && (k == 3 || mode == 3) && (leaver+leave+mode)%6 != rot*3+bi {
+								continue
+							}
+							c15shared(c, sharedShape{k: k, mode: mode, leaver: leaver, leave: leave, rot: rot, batch: batch, leaver2: -1})
+						}
+					}
+				}
+			}
+		}
+	}
 	r := gen.New(c.seed)
-	n, nh := 700, 500
+	n, nh, ns := 700, 500, 120
 	if c.thorough() {
-		n, nh = 10000, 8000
+		n, nh, ns = 10000, 8000, 1500
+	}
+	rs := gen.New(c.seed + 0x15e) // own stream: the random worlds / histories below stay what they were for a seed
+	for i := 0; i < ns; i++ {
+		g := rs.Fork()
+		sh := sharedShape{k: g.Range(2, 3), mode: g.Intn(4), leave: g.Intn(4), rot: g.Intn(2), batch: g.Intn(4), tail: g.Chance(1, 2), leaver2: -1, churn: g.Chance(1, 3)}
+		if sh.mode == 3 && g.Chance(2, 3) {
+			sh.mode = g.Intn(3)
+		}
+		sh.leaver = g.Intn(sh.k)
+		if sh.k == 3 && g.Chance(1, 3) {
+			sh.leaver2 = g.Intn(3)
+		}
+		c15shared(c, sh)
 	}
 	for i := 0; i < n; i++ {
 		g := &syncGen{r: r.Fork(), paths: []string{"/", "/a"}, tlsProb: [2]int{3, 4}, wildcard: i%3 == 0, xns: true}
@@ -322,4 +544,12 @@ var c15corpus = []string{
 	"hist svc+d/app!http:80:8080!- sec+d/tls1!tls!1!a.local sec+d/tls2!tls!1!c.local ing+d/i1@1!haproxy,-!-!a.local>/:Prefix:app:80;c.local>/:Prefix:app:80!a.local>tls1;c.local>tls2!- sync sec~d/tls1!tls!101!a.local sync sec~d/tls1!tls!201!a.local sync",
 	// secret that did not exist at the first sync
 	"hist svc+d/app!http:80:8080!- ing+d/i1@1!haproxy,-!-!a.local>/:Prefix:app:80!a.local>tls1!- sync sec+d/tls1!tls!1!a.local sync",
+	// seed C15e, minimised: two ingresses with distinct hosts and services share d/tls1; the first reader moves to its
+	// own Secret (a partial sync that deletes the tracking links of the whole component must read d/i2 again); then
+	// d/tls1 is rotated in place: c.local must follow (stale-certificate-version / secret-reader-not-tracked)
+	"hist svc+d/app!http:80:8080!- svc+d/api!http:80:8080!- sec+d/tls1!tls!1!a.local sec+d/tls2!tls!1!a.local ing+d/i1@1!haproxy,-!-!a.local>/:Prefix:app:80!a.local>tls1!- ing+d/i2@2!haproxy,-!-!c.local>/:Prefix:api:80!c.local>tls1!- sync ing~d/i1@1!haproxy,-!-!a.local>/:Prefix:app:80!a.local>tls2!- sync sec~d/tls1!tls!2!a.local sync",
+	// the same with the first reader deleted, the second reader in another namespace (permission key), same leaf other chain
+	"hist opt~xns=1 svc+d/app!http:80:8080!- svc+e/api!http:80:8080!- sec+d/tls1!tls!1!a.local ing+d/i1@1!haproxy,-!-!a.local>/:Prefix:app:80!a.local>tls1!- ing+e/i2@2!haproxy,-!-!c.local>/:Prefix:api:80!c.local>d/tls1!- sync ing-d/i1 sync sec~d/tls1!tls!101!a.local sync",
+	// the later reader leaves (tls block removed), the first-created one — a wildcard host — must follow the rotation
+	"hist svc+d/app!http:80:8080!- svc+d/api!http:80:8080!- sec+d/tls1!tls!1!w.local ing+d/i1@1!haproxy,-!-!*.w.local>/:Prefix:app:80!*.w.local>tls1!- ing+d/i2@2!haproxy,-!-!x.w.local>/:Prefix:api:80!x.w.local>tls1!- sync ing~d/i2@2!haproxy,-!-!x.w.local>/:Prefix:api:80!-!- sync sec~d/tls1!tls!2!w.local sync",
 }
